@@ -37,12 +37,12 @@ for p in props:
     if p['id'] not in claimed:
         na.append({'property_id': p['id'], 'reason': na_reasons.get(p['id'], 'check not built yet in this round (planned in DESIGN.md §4); not claimed')})
 engines = [
-    {'name': 'E1', 'path': 'engine/vs', 'kind_free_text': 'controlled scheduler + deviation-bounded stateless DFS over real code instrumented by engine/rewrite (sync/time/signal/runtime shims, faithful channel model, virtual time)'},
+    {'name': 'E1', 'path': 'engine/vs', 'kind_free_text': 'controlled scheduler + deviation-bounded stateless DFS over real code instrumented by engine/rewrite (sync/time/signal/runtime shims incl. RWMutex writer preference, faithful channel model, virtual time incl. context deadlines, atomic timer firing, owned map iteration order, weak/strong quiescence waits)'},
     {'name': 'E2', 'path': 'engine/vr + harness/*', 'kind_free_text': 'sequential bounded-exhaustive / explicit-state exploration of operation sequences, environment answers and input shapes against Go reference models'},
     {'name': 'E3', 'path': 'harness/C01', 'kind_free_text': 'crash enumeration over a logged in-memory storage client (every storage-call boundary, crash chains)'},
     {'name': 'E4', 'path': 'harness/C07, harness/C08', 'kind_free_text': 'reflective payload universe over the generated data-model / protobuf structs (every field, every one-of alternative, boundary values; 1-2 deviations from the zero payload) and operation programs against plain-Go reference models'},
     {'name': 'module-overlay', 'path': 'harness/shared/*.go.txt', 'kind_free_text': 'build-time overlays of single files of third-party modules that own nondeterminism the scheduler cannot see: gonum graph/topo/tarjan.go (tie-breaking of topological sorts = Go map iteration order in the real code; canonical order for deterministic replay, exhaustive enumeration of traversals in C10/service) and cenkalti/backoff exponential.go (the random draw of the randomised retry interval; extremes enumerated in C05)'},
-    {'name': 'race-pass', 'path': 'engine/vs/race.go', 'kind_free_text': 'supporting pass (not the deciding step): the same harness bodies under the same scheduler in a -race binary; the scheduler hand-off is hidden from the detector (//go:norace shim package, plain-variable hand-off under GOMAXPROCS=1), every shim primitive adds an over-approximated happens-before edge for the operation it stands for, so a reported race between two sites of the code under test is a race of the real program under that schedule; deterministic prefix of the same DFS order (race_execs executions per exploration call); validates the atomicity assumption of E1 (scheduling points at synchronisation operations only); reported as coverage.race_pass in the evidence'},
+    {'name': 'race-pass', 'path': 'engine/vs/race.go', 'kind_free_text': 'supporting pass (not the deciding step, except for C09 router-concurrent-race, whose code has no synchronisation operation to interleave): the same harness bodies under the same scheduler in a -race binary; the scheduler hand-off is hidden from the detector (//go:norace shim package, plain-variable hand-off under GOMAXPROCS=1), every shim primitive adds an over-approximated happens-before edge for the operation it stands for, so a reported race between two sites of the code under test is a race of the real program under that schedule; deterministic prefix of the same DFS order (race_execs executions per exploration call); validates the atomicity assumption of E1 (scheduling points at synchronisation operations only); reported as coverage.race_pass in the evidence'},
     {'name': 'rewrite', 'path': 'engine/rewrite', 'kind_free_text': 'syntactic instrumenter (go/ast) applied at check time through go build -overlay; /repo is never edited'},
 ]
 for e in engines:
